@@ -79,4 +79,139 @@
 #define VT_skinny128_ecb_decrypt_1 \
     { V128_LOAD_RK(ks->schedule[index - 1]) spec128_inv_round(VG_S, VG_RK); }
 
+/* ========================================================================
+ * Tweakey schedule.  TK1 is specified in CLOSED FORM: after j applications of
+ * the tweakey permutation, cell i holds key cell PT^j[i] (PT has order 16,
+ * table SPEC_PTJ generated from the paper's PT).  TK2/TK3 are specified by the
+ * ghost program  T := cells(key bytes ++ zeros); repeat { emit T[0..7];
+ * T := LFSRk(PT(T)) }  run in lock-step; VG_SNAP2/3 is its value at the
+ * arbitrary witness round VG_J.
+ * ====================================================================== */
+#define V128_KP(key, j, i) (VU8(key)[SPEC_PTJ[(j) & 15][(i)]])
+#define V128_TK1ROW(key, j, r) \
+    ((uint32_t)V128_KP(key, j, 4 * (r)) | ((uint32_t)V128_KP(key, j, 4 * (r) + 1) << 8) | \
+     ((uint32_t)V128_KP(key, j, 4 * (r) + 2) << 16) | ((uint32_t)V128_KP(key, j, 4 * (r) + 3) << 24))
+#define V128_TK1_EXP0(key, j, tweaked) \
+    (V128_TK1ROW(key, j, 0) ^ (uint32_t)(SPEC_RC[(j)] & 0x0F) ^ ((tweaked) ? 0x00020000u : 0u))
+#define V128_TK1_EXP1(key, j) (V128_TK1ROW(key, j, 1) ^ (uint32_t)(SPEC_RC[(j)] >> 4))
+
+#define V128_TK_IS_GHOST(tk, g) ((tk).row[0] == VPACK32(g, 0) && (tk).row[1] == VPACK32(g, 1) && (tk).row[2] == VPACK32(g, 2) && (tk).row[3] == VPACK32(g, 3))
+#define V128_T_IS_KEYPERM(g, key, j) ((g)[0] == V128_KP(key, j, 0) && (g)[1] == V128_KP(key, j, 1) && (g)[2] == V128_KP(key, j, 2) && (g)[3] == V128_KP(key, j, 3) && (g)[4] == V128_KP(key, j, 4) && (g)[5] == V128_KP(key, j, 5) && (g)[6] == V128_KP(key, j, 6) && (g)[7] == V128_KP(key, j, 7) && (g)[8] == V128_KP(key, j, 8) && (g)[9] == V128_KP(key, j, 9) && (g)[10] == V128_KP(key, j, 10) && (g)[11] == V128_KP(key, j, 11) && (g)[12] == V128_KP(key, j, 12) && (g)[13] == V128_KP(key, j, 13) && (g)[14] == V128_KP(key, j, 14) && (g)[15] == V128_KP(key, j, 15))
+#define V128_LOAD_PADDED(g, key, n) (g)[0] = (0 < (n)) ? VU8(key)[0] : 0; (g)[1] = (1 < (n)) ? VU8(key)[1] : 0; (g)[2] = (2 < (n)) ? VU8(key)[2] : 0; (g)[3] = (3 < (n)) ? VU8(key)[3] : 0; (g)[4] = (4 < (n)) ? VU8(key)[4] : 0; (g)[5] = (5 < (n)) ? VU8(key)[5] : 0; (g)[6] = (6 < (n)) ? VU8(key)[6] : 0; (g)[7] = (7 < (n)) ? VU8(key)[7] : 0; (g)[8] = (8 < (n)) ? VU8(key)[8] : 0; (g)[9] = (9 < (n)) ? VU8(key)[9] : 0; (g)[10] = (10 < (n)) ? VU8(key)[10] : 0; (g)[11] = (11 < (n)) ? VU8(key)[11] : 0; (g)[12] = (12 < (n)) ? VU8(key)[12] : 0; (g)[13] = (13 < (n)) ? VU8(key)[13] : 0; (g)[14] = (14 < (n)) ? VU8(key)[14] : 0; (g)[15] = (15 < (n)) ? VU8(key)[15] : 0;
+#define V128_COPY8(d, s) (d)[0] = (s)[0]; (d)[1] = (s)[1]; (d)[2] = (s)[2]; (d)[3] = (s)[3]; (d)[4] = (s)[4]; (d)[5] = (s)[5]; (d)[6] = (s)[6]; (d)[7] = (s)[7];
+#define V128_UNPACK_PREFIX_OK(tk, g, index) (((index) > 4 * 0 ==> (tk).row[0] == VPACK32(g, 0)) && ((index) <= 4 * 0 ==> (tk).row[0] == 0) && ((index) > 4 * 1 ==> (tk).row[1] == VPACK32(g, 1)) && ((index) <= 4 * 1 ==> (tk).row[1] == 0) && ((index) > 4 * 2 ==> (tk).row[2] == VPACK32(g, 2)) && ((index) <= 4 * 2 ==> (tk).row[2] == 0) && ((index) > 4 * 3 ==> (tk).row[3] == VPACK32(g, 3)) && ((index) <= 4 * 3 ==> (tk).row[3] == 0))
+
+/* ghost state of the tweakey contracts */
+static uint8_t VG_SNAP2[8];        /* TK2 ghost cells 0..7 at witness round */
+static uint8_t VG_SNAP3[8];        /* TK3 ghost cells 0..7 at witness round */
+static uint32_t VG_OLD0, VG_OLD1;  /* schedule[VG_J] at function entry */
+static const void *VG_TK1_KEY; static int VG_TK1_TWEAKED; static unsigned VG_TK1_N;
+static const void *VG_TK2_KEY; static unsigned VG_TK2_SIZE; static unsigned VG_TK2_N;
+static const void *VG_TK3_KEY; static unsigned VG_TK3_SIZE; static unsigned VG_TK3_N;
+
+#define V128_SCHED_REGION(ks) __CPROVER_object_upto((void *)(ks)->schedule, sizeof((ks)->schedule))
+#define V128_SAVE_OLD(ks) VG_OLD0 = (ks)->schedule[VG_J].row[0]; VG_OLD1 = (ks)->schedule[VG_J].row[1];
+#define V128_SCHED_J_IS(ks, a, b) ((ks)->schedule[VG_J].row[0] == (a) && (ks)->schedule[VG_J].row[1] == (b))
+
+/* ---- skinny128_set_tk1: only ever called with a full 16-byte block ---- */
+#define VC_skinny128_set_tk1 \
+    __CPROVER_requires(__CPROVER_is_fresh(ks, sizeof(Skinny128Key_t))) \
+    __CPROVER_requires(ks->rounds <= SKINNY128_MAX_ROUNDS && VG_J < SKINNY128_MAX_ROUNDS) \
+    __CPROVER_requires(key_size == SKINNY128_BLOCK_SIZE && __CPROVER_is_fresh(key, 16)) \
+    __CPROVER_assigns(V128_SCHED_REGION(ks), __CPROVER_object_whole(VG_T), VG_OLD0, VG_OLD1, \
+                      VG_TK1_KEY, VG_TK1_TWEAKED, VG_TK1_N) \
+    __CPROVER_ensures(ks->rounds == __CPROVER_old(ks->rounds)) \
+    __CPROVER_ensures(VG_J < ks->rounds ==> V128_SCHED_J_IS(ks, V128_TK1_EXP0(key, VG_J, tweaked), V128_TK1_EXP1(key, VG_J))) \
+    __CPROVER_ensures(VG_J >= ks->rounds ==> V128_SCHED_J_IS(ks, __CPROVER_old(ks->schedule[VG_J].row[0]), __CPROVER_old(ks->schedule[VG_J].row[1]))) \
+    __CPROVER_ensures(VG_TK1_KEY == key && VG_TK1_TWEAKED == tweaked && VG_TK1_N == __CPROVER_old(VG_TK1_N) + 1)
+
+#define VE_skinny128_set_tk1 \
+    V128_LOAD_PADDED(VG_T, key, 16) V128_SAVE_OLD(ks) \
+    VG_TK1_KEY = key; VG_TK1_TWEAKED = tweaked; VG_TK1_N = VG_TK1_N + 1;
+
+/* loop 1 (partial unpack) is unreachable under key_size == 16 but must still carry a
+   contract: symex would otherwise unwind it without bound on the infeasible path */
+#define VL_skinny128_set_tk1_1 V128_TKN_UNPACK_LOOP
+#define VL_skinny128_set_tk1_2 \
+    __CPROVER_assigns(index, rc, __CPROVER_object_whole(&tk), V128_SCHED_REGION(ks), __CPROVER_object_whole(VG_T)) \
+    __CPROVER_loop_invariant(index <= ks->rounds) \
+    __CPROVER_loop_invariant(V128_TK_IS_GHOST(tk, VG_T)) \
+    __CPROVER_loop_invariant(V128_T_IS_KEYPERM(VG_T, key, index)) \
+    __CPROVER_loop_invariant(rc == (index == 0 ? 0 : SPEC_RC[index - 1])) \
+    __CPROVER_loop_invariant(VG_J < index ==> V128_SCHED_J_IS(ks, V128_TK1_EXP0(key, VG_J, tweaked), V128_TK1_EXP1(key, VG_J))) \
+    __CPROVER_loop_invariant(VG_J >= index ==> V128_SCHED_J_IS(ks, VG_OLD0, VG_OLD1)) \
+    __CPROVER_decreases(ks->rounds - index)
+
+#define VT_skinny128_set_tk1_2 spec128_tk_permute(VG_T);
+
+/* ---- skinny128_xor_tk1 ---- */
+#define VC_skinny128_xor_tk1 \
+    __CPROVER_requires(__CPROVER_is_fresh(ks, sizeof(Skinny128Key_t))) \
+    __CPROVER_requires(ks->rounds <= SKINNY128_MAX_ROUNDS && VG_J < SKINNY128_MAX_ROUNDS) \
+    __CPROVER_requires(__CPROVER_is_fresh(key, 16)) \
+    __CPROVER_assigns(V128_SCHED_REGION(ks), __CPROVER_object_whole(VG_T), VG_OLD0, VG_OLD1) \
+    __CPROVER_ensures(ks->rounds == __CPROVER_old(ks->rounds)) \
+    __CPROVER_ensures(VG_J < ks->rounds ==> V128_SCHED_J_IS(ks, \
+        __CPROVER_old(ks->schedule[VG_J].row[0]) ^ V128_TK1ROW(key, VG_J, 0), \
+        __CPROVER_old(ks->schedule[VG_J].row[1]) ^ V128_TK1ROW(key, VG_J, 1))) \
+    __CPROVER_ensures(VG_J >= ks->rounds ==> V128_SCHED_J_IS(ks, __CPROVER_old(ks->schedule[VG_J].row[0]), __CPROVER_old(ks->schedule[VG_J].row[1])))
+
+#define VE_skinny128_xor_tk1 V128_LOAD_PADDED(VG_T, key, 16) V128_SAVE_OLD(ks)
+
+#define VL_skinny128_xor_tk1_1 \
+    __CPROVER_assigns(index, __CPROVER_object_whole(&tk), V128_SCHED_REGION(ks), __CPROVER_object_whole(VG_T)) \
+    __CPROVER_loop_invariant(index <= ks->rounds) \
+    __CPROVER_loop_invariant(V128_TK_IS_GHOST(tk, VG_T)) \
+    __CPROVER_loop_invariant(V128_T_IS_KEYPERM(VG_T, key, index)) \
+    __CPROVER_loop_invariant(VG_J < index ==> V128_SCHED_J_IS(ks, VG_OLD0 ^ V128_TK1ROW(key, VG_J, 0), VG_OLD1 ^ V128_TK1ROW(key, VG_J, 1))) \
+    __CPROVER_loop_invariant(VG_J >= index ==> V128_SCHED_J_IS(ks, VG_OLD0, VG_OLD1)) \
+    __CPROVER_decreases(ks->rounds - index)
+
+#define VT_skinny128_xor_tk1_1 spec128_tk_permute(VG_T);
+
+/* ---- skinny128_set_tk2 / set_tk3: key of 1..16 bytes, zero padded ---- */
+#define V128_TKN_CONTRACT(SNAP, KEYV, SIZEV, NV) \
+    __CPROVER_requires(__CPROVER_is_fresh(ks, sizeof(Skinny128Key_t))) \
+    __CPROVER_requires(ks->rounds <= SKINNY128_MAX_ROUNDS && VG_J < SKINNY128_MAX_ROUNDS) \
+    __CPROVER_requires(1 <= key_size && key_size <= SKINNY128_BLOCK_SIZE && __CPROVER_is_fresh(key, key_size)) \
+    __CPROVER_assigns(V128_SCHED_REGION(ks), __CPROVER_object_whole(VG_T), __CPROVER_object_whole(SNAP), \
+                      VG_OLD0, VG_OLD1, KEYV, SIZEV, NV) \
+    __CPROVER_ensures(ks->rounds == __CPROVER_old(ks->rounds)) \
+    __CPROVER_ensures(VG_J < ks->rounds ==> V128_SCHED_J_IS(ks, \
+        __CPROVER_old(ks->schedule[VG_J].row[0]) ^ VPACK32(SNAP, 0), \
+        __CPROVER_old(ks->schedule[VG_J].row[1]) ^ VPACK32(SNAP, 1))) \
+    __CPROVER_ensures(VG_J >= ks->rounds ==> V128_SCHED_J_IS(ks, __CPROVER_old(ks->schedule[VG_J].row[0]), __CPROVER_old(ks->schedule[VG_J].row[1]))) \
+    __CPROVER_ensures(KEYV == key && SIZEV == key_size && NV == __CPROVER_old(NV) + 1)
+
+#define V128_TKN_ENTRY(KEYV, SIZEV, NV) \
+    V128_LOAD_PADDED(VG_T, key, key_size) V128_SAVE_OLD(ks) KEYV = key; SIZEV = key_size; NV = NV + 1;
+
+#define V128_TKN_UNPACK_LOOP \
+    __CPROVER_assigns(index, word, __CPROVER_object_whole(&tk)) \
+    __CPROVER_loop_invariant(index <= 16 && (index & 3) == 0) \
+    __CPROVER_loop_invariant(V128_UNPACK_PREFIX_OK(tk, VG_T, index)) \
+    __CPROVER_decreases(20 - index)
+
+#define V128_TKN_MAIN_LOOP(SNAP) \
+    __CPROVER_assigns(index, __CPROVER_object_whole(&tk), V128_SCHED_REGION(ks), __CPROVER_object_whole(VG_T), __CPROVER_object_whole(SNAP)) \
+    __CPROVER_loop_invariant(index <= ks->rounds) \
+    __CPROVER_loop_invariant(V128_TK_IS_GHOST(tk, VG_T)) \
+    __CPROVER_loop_invariant(VG_J < index ==> V128_SCHED_J_IS(ks, VG_OLD0 ^ VPACK32(SNAP, 0), VG_OLD1 ^ VPACK32(SNAP, 1))) \
+    __CPROVER_loop_invariant(VG_J >= index ==> V128_SCHED_J_IS(ks, VG_OLD0, VG_OLD1)) \
+    __CPROVER_decreases(ks->rounds - index)
+
+#define VC_skinny128_set_tk2 V128_TKN_CONTRACT(VG_SNAP2, VG_TK2_KEY, VG_TK2_SIZE, VG_TK2_N)
+#define VE_skinny128_set_tk2 V128_TKN_ENTRY(VG_TK2_KEY, VG_TK2_SIZE, VG_TK2_N)
+#define VL_skinny128_set_tk2_1 V128_TKN_UNPACK_LOOP
+#define VL_skinny128_set_tk2_2 V128_TKN_MAIN_LOOP(VG_SNAP2)
+#define VT_skinny128_set_tk2_2 \
+    if (index == VG_J) { V128_COPY8(VG_SNAP2, VG_T) } spec128_tk_permute(VG_T); spec128_tk_lfsr2(VG_T);
+
+#define VC_skinny128_set_tk3 V128_TKN_CONTRACT(VG_SNAP3, VG_TK3_KEY, VG_TK3_SIZE, VG_TK3_N)
+#define VE_skinny128_set_tk3 V128_TKN_ENTRY(VG_TK3_KEY, VG_TK3_SIZE, VG_TK3_N)
+#define VL_skinny128_set_tk3_1 V128_TKN_UNPACK_LOOP
+#define VL_skinny128_set_tk3_2 V128_TKN_MAIN_LOOP(VG_SNAP3)
+#define VT_skinny128_set_tk3_2 \
+    if (index == VG_J) { V128_COPY8(VG_SNAP3, VG_T) } spec128_tk_permute(VG_T); spec128_tk_lfsr3(VG_T);
+
 #endif
